@@ -39,7 +39,11 @@ RULE = ("Two feature files on disk (features/f0.feature, features/f1.feature in 
         "scenario of the whole-file feature and skip the rest; plus, on every pair, exactly one slot of kind cleanup (its passing "
         "step registers a raising cleanup on the scenario layer: the scenario ends error-class - fixed by the kind, not read "
         "from the model - and must be listed) or cleanupf (registered with layer='feature': the feature ends error, the "
-        "scenario passed and is not listed), alone and next to <= 1 (thorough: <= 2) other non-pass slots. Run 1 = real Configuration "
+        "scenario passed and is not listed), alone and next to <= 1 (thorough: <= 2) other non-pass slots; plus, on 2 pairs, the directory layout: the cwd is "
+        "<scratch>/proj and the feature files lie below it (everywhere else), in ../shared/features, or in a sibling whose "
+        "name extends the cwd's name (../proj.shared/features, ../proj2/features), given to run 1 as a relative path, an "
+        "absolute path or a path with a '..' detour; every listed file must exist relative to the cwd the file is fed back "
+        "from and carry the cwd-relative name of the real file. Run 1 = real Configuration "
         "(-f rerun -o rerun.txt features), collect_feature_locations + parse_features on the files, formatters from "
         "make_formatters, ModelRunner with a fresh StepRegistry. Oracle: rerun.txt lists exactly file:line (line known "
         "from the renderer) of the scenarios whose final status is failed or error-class, in run order; none -> no file "
@@ -52,7 +56,8 @@ RULE = ("Two feature files on disk (features/f0.feature, features/f1.feature in 
         "distinct (shapes, kinds, stale) where the file must discriminate (some but not all scenarios listed) or a stale "
         "file must be removed.")
 ASSUMPTIONS = ["the rerun file is written into the current directory and fed back from there (documented usage "
-               "`behave @rerun.txt`); an output file in another directory than the cwd is not enumerated",
+               "`behave @rerun.txt`); an output file in another directory than the cwd is not enumerated (the feature "
+               "files' directory is: below the cwd, beside it, beside it with a name that extends the cwd's name)",
                "error-class = error, hook_error, cleanup_error, undefined, pending (docs/appendix.status.rst)",
                "the second run uses the same tag expression and the same hook faults as the first",
                "kind cleanupf (a raising cleanup registered with layer='feature' from a passing scenario): the statement "
@@ -279,8 +284,32 @@ XDIR, XFILE, LISTFILE = "extra", "extra/f2.feature", "feeds.txt"
 XFEATURE = _F((_S(), _O(ROWS1)))          # the third feature (never part of run 1): all of it runs when named whole
 
 
-def fname(fi):
-    return "%s/f%d.feature" % (FDIR, fi)
+# directory layout (the `layout` element of a case): the scratch root holds the working directory `proj` and the feature
+# directory - below the cwd, in an unrelated sibling, in siblings whose NAME EXTENDS the cwd's name - addressed in run 1 by a
+# relative path, an absolute path, or a path with a `..` detour
+CWDNAME = "proj"
+LAYOUT_WHERE = {"below": "proj/features", "shared": "shared/features", "ext.": "proj.shared/features",
+                "ext2": "proj2/features"}
+LAYOUT_HOW = ("rel", "abs", "dotdot")
+DEFAULT_LAYOUT = ("below", "rel")
+
+
+def features_rel(where):
+    """the feature directory as seen from the cwd (the name every location must carry)"""
+    return os.path.relpath("/x/" + LAYOUT_WHERE[where], "/x/" + CWDNAME)
+
+
+def fname(fi, where="below"):
+    return "%s/f%d.feature" % (features_rel(where), fi)
+
+
+def _lookup(table, filename, line):
+    """(filename, line) -> path; falls back to the file's base name (f0/f1/f2.feature are unique), so that a location with a
+    wrong directory part is judged by the listing oracle and does not derail the harness"""
+    hit = table.get((filename, line))
+    if hit is None:
+        hit = table.get(("*/" + os.path.basename(filename), line))
+    return hit
 
 
 # ------------------------------------------------------------------------------------------- one real run
@@ -301,7 +330,8 @@ def one_run(m, args, loc2path, faults, loc2cont=None, cfault=None, feedback=Fals
         obs["feed_exc"] = "%s: %s" % (type(e).__name__, str(e)[:160])
         return obs
     def path_of(s):
-        return loc2path.get((s.location.filename, s.line), "?")
+        hit = _lookup(loc2path, s.location.filename, s.line)
+        return "?" if hit is None else hit
 
     for f in feats:
         obs["present"].append(f.filename)
@@ -313,7 +343,7 @@ def one_run(m, args, loc2path, faults, loc2cont=None, cfault=None, feedback=Fals
     conts = []
     for f in feats:
         for c in [f] + [x for x in f.run_items if isinstance(x, m["Rule"])]:
-            cp = (loc2cont or {}).get((c.location.filename, c.line))
+            cp = _lookup(loc2cont or {}, c.location.filename, c.line)
             if cp is None:
                 obs["unknown"].append(str(c.location))
             else:
@@ -488,12 +518,16 @@ def rerun_case(case):
     dup = 1: all scenario / outline / rule / examples titles identical; feed = 1: the entries of the rerun file are given
     to run 2 as file:line command-line arguments instead of '@rerun.txt', feed = 2/3/4: see FEEDS (a whole-file location of a third
     feature, extra/f2.feature, before / in a list file before / after the rerun entries); opts = extra command-line switches of both runs
-    (a subset of --tags=t, --no-skipped; shapes from TAG_SHAPES)"""
+    (a subset of --tags=t, --no-skipped; shapes from TAG_SHAPES); layout = (where, how): see LAYOUT_WHERE / LAYOUT_HOW"""
     shape0, shape1, kinds, stale = case[:4]
     cfault = case[4] if len(case) > 4 else None
     dup = case[5] if len(case) > 5 else 0
     feed = case[6] if len(case) > 6 else 0
     opts = tuple(case[7]) if len(case) > 7 else ()
+    where, how = tuple(case[8]) if len(case) > 8 else DEFAULT_LAYOUT
+
+    def fn(fi):
+        return fname(fi, where)
     m = harness._imp()
     harness.reset_globals()
     prog, order = build(shape0, shape1, kinds, cfault)
@@ -501,10 +535,10 @@ def rerun_case(case):
     exempt, special = special_of(prog)
     tagsel = "--tags=t" in opts
     efftags = {p: info["tags"] for p, _k, info in P.walk_scenarios(prog)}
-    tagon = {fname(fi): tag_level(f) for fi, f in enumerate(prog)} if opts else None
+    tagon = {fn(fi): tag_level(f) for fi, f in enumerate(prog)} if opts else None
     faults = {p: k for p, k in kind_of.items() if k in ("hookb", "hooka")}
     v = []
-    d = tempfile.mkdtemp(prefix="c17_", dir="/dev/shm" if os.path.isdir("/dev/shm") else None)
+    d = tempfile.mkdtemp(prefix="c17_%d_" % os.getpid(), dir="/dev/shm" if os.path.isdir("/dev/shm") else None)
     cwd = os.getcwd()
     root = logging.getLogger()
     saved_handlers, saved_level = list(root.handlers), root.level
@@ -512,23 +546,27 @@ def rerun_case(case):
     sys.stdout = io.StringIO()
     sys.stderr = io.StringIO()
     try:
-        os.chdir(d)
-        os.mkdir(FDIR)
+        os.mkdir(os.path.join(d, CWDNAME))
+        os.chdir(os.path.join(d, CWDNAME))
+        os.makedirs(os.path.join(d, LAYOUT_WHERE[where]))
+        fdir = features_rel(where)
         path2loc, loc2path, loc2cont = {}, {}, {}
         for fi, f in enumerate(prog):
             text, meta = P.render(f, fi)
             if dup:
                 text = same_titles(text)
-            with io.open(fname(fi), "w", encoding="utf-8") as fh:
+            with io.open(fn(fi), "w", encoding="utf-8") as fh:
                 fh.write(text)
-            loc2cont[(fname(fi), meta["lines"][(fi,)])] = (fi,)
-            for k, x in enumerate(f[3]):
-                if x[0] == "R":
-                    loc2cont[(fname(fi), meta["lines"][(fi, k)])] = (fi, k)
+            for key in (fn(fi), "*/f%d.feature" % fi):
+                loc2cont[(key, meta["lines"][(fi,)])] = (fi,)
+                for k, x in enumerate(f[3]):
+                    if x[0] == "R":
+                        loc2cont[(key, meta["lines"][(fi, k)])] = (fi, k)
             for p in order:
                 if p[0] == fi:
-                    path2loc[p] = (fname(fi), meta["lines"][p])
+                    path2loc[p] = (fn(fi), meta["lines"][p])
                     loc2path[path2loc[p]] = p
+                    loc2path[("*/f%d.feature" % fi, meta["lines"][p])] = p
         xpaths, xcalls = [], []
         if feed >= 2:
             os.mkdir(XDIR)
@@ -554,7 +592,9 @@ def rerun_case(case):
         base.extend(opts)
 
         # ---------------- run 1
-        o1 = one_run(m, base + [FDIR], loc2path, faults, loc2cont, cfault)
+        arg1 = {"rel": fdir, "abs": os.path.join(d, LAYOUT_WHERE[where]),
+                "dotdot": os.path.join(os.pardir, CWDNAME, fdir)}[how]
+        o1 = one_run(m, base + [arg1], loc2path, faults, loc2cont, cfault)
         if o1["feed_exc"] or o1["escaped"] or o1["unknown"]:
             v.append(({"subcheck": "run", "clause": "exception-escapes-run" if o1["escaped"] else "harness-premise",
                        "exc": (o1["escaped"] or o1["feed_exc"] or "location").split(":")[0]},
@@ -600,6 +640,14 @@ def rerun_case(case):
                           "run 1: scenario %r was executed and ended %s, feature.walk_scenarios() afterwards yields a "
                           "scenario at that location with status %s" % (p, st1.get(p), o1["mstatus"].get(p))))
         text1, entries1 = read_listing(v, "run 1")
+        if text1 != stale_text:
+            for e in entries1:
+                if not os.path.isfile(e[0]):
+                    v.append(({"subcheck": "rerun.listing", "clause": "listed-file-does-not-exist"},
+                              "run 1 (features in %s, given as %r, cwd %s): the rerun file names %s, which does not exist "
+                              "relative to the directory the file is fed back from; file content:\n%s"
+                              % (LAYOUT_WHERE[where], arg1, CWDNAME, e[0], text1)))
+                    break
         expected1 = check_listing(v, "run 1 %skinds=%s stale=%s cfault=%s" % (opts and "%s " % list(opts) or "", list(kinds),
                                                                           stale, cfault), st1, order,
                                   path2loc, loc2path,
@@ -729,7 +777,8 @@ def rerun_case(case):
                cfault and (cfault[1], "feature" if len(cfault[0]) == 1 else "rule"), int(bool(dup)),
                special and special + (feed,), opts and ("+".join(o.strip("-").split("=")[0] for o in opts),
                                                         tuple(sorted(set(tagon.values()), key=str))), feed,
-               "+".join(sorted(set(k for k in kinds if k in CLEANUP_KINDS))) or None)
+               "+".join(sorted(set(k for k in kinds if k in CLEANUP_KINDS))) or None,
+               (where, how) if (where, how) != DEFAULT_LAYOUT else None)
         # special-tag programs: what happens to the untagged unlisted scenarios is judged by the oracle, but a defect there
         # may depend on set iteration order, so those scenarios stay out of the determinism digest
         keep = set(order) if not special else set(p for p in order if p in exempt or st1.get(p) != "passed")
@@ -762,6 +811,11 @@ def rerun_case(case):
         plain = rerun_case((shape0, shape1, kinds, stale, cfault, dup, 0, opts))
         if not plain["v"]:
             res["v"] = [(dict(desc, feed=FEED_KEY[feed]), msg) for desc, msg in res["v"]]
+    if (where, how) != DEFAULT_LAYOUT and res["v"]:
+        # trigger class: the directory layout, if the same case with the features below the cwd is clean
+        plain = rerun_case((shape0, shape1, kinds, stale, cfault, dup, feed, opts, DEFAULT_LAYOUT))
+        if not plain["v"]:
+            res["v"] = [(dict(desc, layout=where), msg) for desc, msg in res["v"]]
     return res
 
 
@@ -871,6 +925,29 @@ def cleanup_cases(tier):
                             yield (s0, s1, tuple(t), 1)
 
 
+LAYOUT_PAIRS = (("SS", "O2"), ("S+R(S)", "SS"))
+
+
+def layout_cases(tier):
+    """every directory layout x way of addressing it (but the default, used everywhere else): <= 1 non-pass slot of every
+    kind and every pair of failing slots (thorough: every assignment with <= 2 non-pass slots), full history"""
+    for a, b in LAYOUT_PAIRS:
+        s0, s1 = SHAPES[a], SHAPES[b]
+        n = nslots(s0) + nslots(s1)
+        assigns = list(assignments(n, 1))
+        if tier == "quick":
+            for i, j in itertools.combinations(range(n), 2):
+                assigns.append(tuple("fail" if x in (i, j) else "pass" for x in range(n)))
+        else:
+            assigns.extend(assignments(n, 2))
+        for where in ("below", "shared", "ext.", "ext2"):
+            for how in LAYOUT_HOW:
+                if (where, how) == DEFAULT_LAYOUT:
+                    continue
+                for kinds in assigns:
+                    yield (s0, s1, kinds, 1, None, 0, 0, (), (where, how))
+
+
 FEED_PAIRS = (("SS", "O2"), ("O2", "S+R(S)"), ("R(S,O1)", "O1|1"))
 
 
@@ -911,14 +988,18 @@ def run(ctx):
                                 "whole-file entry, whole-file location after @rerun.txt}",
                   "cleanup_kinds": "exactly one slot cleanup / cleanupf on every pair, alone and with <= %d other non-pass slots"
                                    % (1 if ctx.quick else 2),
+                  "directory_layouts": "features below the cwd / in ../shared / in siblings whose name extends the cwd's name "
+                                       "(../proj.shared, ../proj2) x addressed by relative, absolute and '..'-detour path; "
+                                       "2 pairs; the rerun file stays in the cwd",
                   "executions": "a case with a rerun file counts 2 (run + re-run), otherwise 1"}
     ctx.sweep(rerun_case, cases(ctx.tier), chunk=16, name="run -> rerun.txt -> run")
     ctx.sweep(rerun_case, special_cases(ctx.tier), chunk=8, name="bystanders tagged @setup/@teardown")
     ctx.sweep(rerun_case, switch_cases(ctx.tier), chunk=16, name="{--tags=t} x {--no-skipped} x @t placements")
     ctx.sweep(rerun_case, feed_cases(ctx.tier), chunk=16, name="rerun entries next to a whole-file location")
     ctx.sweep(rerun_case, cleanup_cases(ctx.tier), chunk=16, name="scenario kinds cleanup / cleanupf")
+    ctx.sweep(rerun_case, layout_cases(ctx.tier), chunk=16, name="directory layouts x addressing")
     kinds_seen = set()
-    for (statuses, _n, _f, _s, _second, _cf, _dup, _sp, _sw, _feed, _cl) in ctx.outcomes:
+    for (statuses, _n, _f, _s, _second, _cf, _dup, _sp, _sw, _feed, _cl, _lay) in ctx.outcomes:
         kinds_seen |= set(statuses)
     for need in ("passed", "failed", "error", "hook_error", "skipped"):
         ctx.guard(need in kinds_seen, "scenario status %s occurred in run 1" % need)
@@ -945,6 +1026,11 @@ def run(ctx):
               "a scenario whose only problem is a raising scenario-layer cleanup was listed and fed back")
     ctx.guard(any(o[10] == "cleanupf" and o[1] == 0 and o[3] for o in ctx.outcomes),
               "a raising feature-layer cleanup as the only problem: no scenario to list, stale file to remove")
+    lays = set(o[11] for o in ctx.outcomes if o[11] and o[4] and o[1] > 0)
+    for where in LAYOUT_WHERE:
+        for how in LAYOUT_HOW:
+            if (where, how) != DEFAULT_LAYOUT:
+                ctx.guard((where, how) in lays, "layout %s addressed by %s: file written and fed back" % (where, how))
     for fd in (2, 3, 4):
         ctx.guard(any(o[9] == fd and o[4] and "passed" in o[0] for o in ctx.outcomes),
                   "fed back as: %s (with unlisted scenarios in the listed features)" % FEEDS[fd])
